@@ -1,7 +1,12 @@
 //! Checks on p2panda-encryption (C34 … C38).
 use explorer::{Args, Report};
 
+mod c34;
+mod c36;
+mod c37;
+mod c38;
 mod clock;
+mod par;
 mod scratch;
 
 fn main() {
@@ -14,6 +19,10 @@ fn main() {
         std::process::exit(2);
     }
     let code = match args.property.as_str() {
+        "C34" => c34::run(Report::new(&args, "model_checking")),
+        "C36" => c36::run(Report::new(&args, "model_checking")),
+        "C37" => c37::run(Report::new(&args, "model_checking")),
+        "C38" => c38::run(Report::new(&args, "model_checking")),
         "X00" => scratch::run(Report::new(&args, "model_checking")),
         other => {
             eprintln!("vh-enc: unknown property {other}");
